@@ -51,6 +51,14 @@ class OverlayError(Exception):
     pass
 
 
+def disabled_files():
+    """Harness files listed in kani/DISABLED (one per line) are skipped: work in progress."""
+    p = os.path.join(KANI_DIR, "DISABLED")
+    if os.environ.get("FLACVERIF_HONOR_DISABLED") != "1" or not os.path.exists(p):
+        return set()
+    return {l.strip() for l in open(p) if l.strip() and not l.startswith("#")}
+
+
 REUSABLE_TWIN_FRESH = '''
 // ---- flacverif O4: cfg(kani) twin of `reusable!` (fresh buffer per use; no thread_local) ----
 #[cfg(kani)]
@@ -200,7 +208,7 @@ def build(dest, havoc=False, with_contracts=True, only_files=None, extra=None):
     # O1 ---------------------------------------------------------------------------------------
     for hname, (rel, modname) in HARNESS_FILES.items():
         hpath = os.path.join(KANI_DIR, hname)
-        if not os.path.exists(hpath):
+        if not os.path.exists(hpath) or hname in disabled_files():
             continue
         if only_files is not None and hname not in only_files:
             continue
